@@ -152,6 +152,35 @@ theorem C22_readLine_out {S : Bytes} (b : Reader) (h : RInv S b) (hnp : b.readLi
           rw [h2, List.append_assoc, dropLast_append_last hnl]
       · exact ⟨[], Or.inl rfl, fun _ => rfl, by simpa using h2⟩
 
+/-! ### the delegation branch of WriteTo (underlying reader is an io.WriterTo)
+
+  Full statement (what C22 demands): the Reader invariant `RInv` is preserved, as for every other method.
+  The code as it is does NOT satisfy it: it adds the delegated byte count to TotalRead but leaves
+  `lastByte`, `lastRuneSize`, `r`, `w` untouched, so a following UnreadByte / UnreadRune gives back bytes that
+  are not the last ones consumed (finding `deleg-stale-unread`, witness below).  What does hold: -/
+
+/-- stream preservation and counter exactness survive the delegated WriteTo (for sinks that honour the
+    io.Writer contract "short write ⇒ error", on which this branch relies in the standard library too) -/
+theorem C22_writeTo_delegated_partial {S : Bytes} (b : Reader) (ws : WScript) (h : RInv S b)
+    (hc : (wsWrite ws b.cur).2.1 = 0 → b.cur.length ≤ (wsWrite ws b.cur).1) :
+    (b.writeToWT ws).1.consumed ++ (b.writeToWT ws).1.cur ++ srcBytes (b.writeToWT ws).1.src = S ∧
+      (b.writeToWT ws).1.total = (b.writeToWT ws).1.consumed.length ∧
+      (b.writeToWT ws).1.consumed = b.consumed ++ (b.writeToWT ws).2.2.2 :=
+  writeToWT_partial b ws h hc
+
+/-- witness: "ab" then "c"; ReadByte a, delegated WriteTo hands b and c to the sink, UnreadByte succeeds
+    and the next ReadByte returns 'b' although the last byte consumed was 'c': the invariant clause that
+    ties `lastByte` to the consumed stream is broken by the delegation branch -/
+theorem C22_witness_delegated_unread :
+    let b0 := Reader.new 16 [([0x61, 0x62], 0), ([0x63], 0)]
+    let b1 := (b0.readByte.1.writeToWT []).1
+    b1.consumed = [0x61, 0x62, 0x63] ∧ b1.unreadByte.2 = 0 ∧ b1.unreadByte.1.readByte.2.1 = some 0x62 ∧
+      ¬ RInv [0x61, 0x62, 0x63] b1 := by
+  refine ⟨by decide, by decide, by decide, ?_⟩
+  intro h
+  have := h.last (by decide) 0x62 (by decide)
+  revert this; decide
+
 /-- **Reset**: after `Reset(r)` the Reader satisfies the invariant for the new source with an empty history
     and `TotalRead = 0`, so every theorem above applies afresh to the new stream -/
 theorem C22_reader_reset {S : Bytes} (b : Reader) (src : Script) (h : RInv S b) :
@@ -214,6 +243,11 @@ theorem C22_writer_reset (b : Writer) (ws : WScript) :
     optional flush, or WriteString of the encoding for a tiny buffer) -/
 theorem C22_writeRune_inv (b : Writer) (r : Nat) (h : WInv b) : WInv (b.writeRune r).1 :=
   winv_writeRune b r h
+
+/-- the delegation branch of `Writer.ReadFrom` (underlying writer is an io.ReaderFrom, nothing buffered)
+    keeps both Writer invariants -/
+theorem C22_readFrom_delegated (b : Writer) (src : Script) (h : WInv b) : WInv (b.readFromRF src).1 :=
+  winv_readFromRF b src h
 
 /-- `Write`/`WriteString` returning `n` took exactly the first `n` bytes offered -/
 theorem C22_write_takes_prefix (direct : Bool) (b : Writer) (p : Bytes) (h : WInv b) :
